@@ -171,6 +171,22 @@ Proof.
     rewrite <- Hn. destruct (cur_oacct m a); reflexivity.
 Qed.
 
+(** AddBalance = GetOrCreateAccount, then SetBalance(current + amount) unless the amount is zero *)
+Lemma step_addbal m s a z : Sim e m s -> step_ok m s (AddBal a z).
+Proof.
+  intro S. unfold step_ok. cbn [step spec_step]. unfold do_addbal.
+  pose proof (step_getbal m s a S) as SG. unfold step_ok in SG. cbn [step spec_step] in SG.
+  pose proof (do_getbal_spec m a (sim_inv e m s S)) as DG.
+  unfold do_getbal in SG, DG. destruct (get_obj m a) as [m1 o]. cbn [fst snd] in *.
+  destruct SG as [S1 _]. destruct DG as [GO Hx]. injection Hx as Hx.
+  destruct (z =? 0)%Z eqn:Ez; [split; [exact S1 | reflexivity]|].
+  pose proof (step_setbal m1 s a (obj_bal o + z)%Z S1) as SB. unfold step_ok in SB. cbn [step spec_step] in SB.
+  destruct SB as [S2 _]. split; [| reflexivity].
+  assert (Hb : obj_bal o = sa_bal (sm_acct_get (sp_cur s) a)).
+  { rewrite Hx. destruct (sim_cur e m s S) as [_ M2]. destruct (M2 a) as [_ [Hb _]]. exact Hb. }
+  rewrite <- Hb. exact S2.
+Qed.
+
 Lemma step_setnonce m s a n : Sim e m s -> step_ok m s (SetNonce a n).
 Proof.
   intro S. unfold step_ok. cbn [step spec_step].
